@@ -64,6 +64,10 @@ var c35Families = []c35Family{
 	{"htmlblock", "<pre>\n", []string{"a", "*a*", "\n", "\n\n", " ", "</pre", "</", "td", ">", "<", "-->", "?>", "> "}, 4, 5, true},
 	// Entity and numeric character references after "&".
 	{"charref", "&", []string{"a", "amp", "lt", "quote", "quot", "#", "x", "X", "0", "3", "5", "7", "d", "8", "f", ";", "&", " ", "`", "\n", "\x00"}, 4, 5, true},
+	// Info strings of fenced code blocks: escapes, character references, words.
+	{"fenceinfo", "```", []string{"a", "b", " ", "\\", "&amp;", "&#35;", "`", "~", "\n", "```", "*", "&lt"}, 4, 5, true},
+	// HTML blocks inside and next to containers.
+	{"containerhtml", "", []string{"> ", "- ", "<a>", "<!--", "-->", "<td>", "</td>", "\n", "\n\n", "a", "  ", " "}, 4, 5, true},
 	// Block structure at the character level: markers with and without
 	// spaces, indentation, fences, thematic breaks, lazy continuation.
 	{"blocks", "", []string{"a", " ", "  ", "\n", "-", "+", "*", "1.", "2)", ">", "#", "~~~", "```", "---"}, 5, 6, true},
@@ -253,6 +257,19 @@ func c35NotJudged(doc string, ref c35Ref) string {
 	for _, d := range c35RefDeviations {
 		if strings.Contains(doc, d.guard) && d.re.MatchString(doc) {
 			return d.why
+		}
+	}
+	// spec: a comment is "<!--", a string not including "-->", and "-->"; the
+	// reference's pattern additionally refuses a body that ends in "-"
+	// (e.g. "<!--<!---->", which cmark also reads as one comment).
+	for rest := doc; ; {
+		i := strings.Index(rest, "<!--")
+		if i < 0 {
+			break
+		}
+		rest = rest[i+4:]
+		if k := strings.Index(rest, "-->"); k > 0 && rest[k-1] == '-' {
+			return "reference-comment-body-ending-in-dash"
 		}
 	}
 	return ""
@@ -993,7 +1010,22 @@ func TestVerifC35(t *testing.T) {
 				break
 			}
 			t0 := time.Now()
-			st.explore(f, vk.Pick(c, f.q, f.t))
+			n := vk.Pick(c, f.q, f.t)
+			// one-off deeper exploration of selected families (not a tier):
+			// VERIF_C35_DEEP="mixed=6,blocks=7"
+			if deep := os.Getenv("VERIF_C35_DEEP"); deep != "" {
+				n = 0
+				for _, kv := range strings.Split(deep, ",") {
+					if k, v, ok := strings.Cut(kv, "="); ok && k == f.name {
+						n, _ = strconv.Atoi(v)
+					}
+				}
+				if n == 0 {
+					continue
+				}
+				c.Capped("VERIF_C35_DEEP: one-off run of selected families")
+			}
+			st.explore(f, n)
 			fmt.Printf("INFO property=C35 family %s done in %.1fs\n", f.name, time.Since(t0).Seconds())
 		}
 		if st.dead != nil {
